@@ -63,7 +63,16 @@ def var(w, name):
     return _mk('var', w, name)
 
 
+UF_INVERSE = {}      # fname -> name of its inverse function (ground rewrite f(finv(t)) -> t, justified by a lemma of the check)
+
+
 def uf(w, fname, args):
+    args = [gf2_canon(x) for x in args]        # linear wiring inside arguments is normalised, so equal arguments coincide
+    inv = UF_INVERSE.get(fname)
+    if inv is not None and len(args) == 1 and args[0].k == 'uf' and args[0].a[0] == inv and len(args[0].a) == 2:
+        inner = node(args[0].a[1])
+        if inner.w == w:
+            return inner
     return _mk('uf', w, (fname,) + tuple(x.id for x in args))
 
 
@@ -269,6 +278,17 @@ def add(w, items, c=0):
 FLATTEN_MAX = 1 << 30
 _NARROW = {}
 _LZ = {}
+
+
+def _eff_width(n):
+    "width of n without syntactic leading zeros"
+    if n.k == 'const':
+        return n.a.bit_length()
+    if n.k == 'cat':
+        top = n.a[-1]
+        if top[0] == 'c':
+            return n.w - top[2] + top[1].bit_length()
+    return n.w
 
 
 def _tz(v, w):
@@ -624,10 +644,38 @@ def gf2_bits(n):
                 acc[j][0] ^= st
                 acc[j][1] ^= cb
         r = tuple((frozenset(st), cb) for st, cb in acc)
+    elif k == 'add' and _carry_free(n):
+        # power-of-two coefficients with pairwise disjoint bit supports: no carries, the sum is an xor of shifted terms
+        acc = [[set(), (n.a[1] >> j) & 1] for j in range(n.w)]
+        for i, c in n.a[0]:
+            sh = c.bit_length() - 1
+            for j, (st, cb) in enumerate(gf2_bits(node(i))):
+                if j + sh < n.w:
+                    acc[j + sh][0] ^= st
+                    acc[j + sh][1] ^= cb
+        r = tuple((frozenset(st), cb) for st, cb in acc)
     else:
         r = tuple((frozenset([(n.id, j)]), 0) for j in range(n.w))
     _GF2[n.id] = r
     return r
+
+
+def _carry_free(n):
+    M = (1 << n.w) - 1
+    occ = n.a[1]
+    for i, c in n.a[0]:
+        if c & (c - 1):
+            return False
+        t = node(i)
+        j = c.bit_length() - 1
+        sup = (((1 << _eff_width(t)) - 1) << j) & M
+        lz = low_zeros(t)
+        if lz:
+            sup &= ~((1 << (j + lz)) - 1)
+        if sup & occ:
+            return False
+        occ |= sup
+    return True
 
 
 def gf2_canon(n):
